@@ -376,9 +376,9 @@ finally:
 
 
 # ---- pool plumbing ----------------------------------------------------------------------------------------
-def _init_worker():
+def _init_worker(root):
     import tempfile
-    return {"fp": import_fastparquet(), "dir": tempfile.mkdtemp(prefix="verif-c01-")}
+    return {"fp": import_fastparquet(), "dir": tempfile.mkdtemp(prefix="w-", dir=root)}
 
 
 def _work(state, features):
@@ -396,7 +396,10 @@ def run_cases(cases, workers=None):
     """Run the cases in forked worker processes; yields (features, result) in the order of `cases`.
     A worker that dies while running a case (native crash) is a failed case, not an engine error:
     neither a crashing write nor a crashing read is 'the write raises'."""
-    res = D.crashproof_map(_work, cases, init=_init_worker, workers=workers, weight=lambda c: c["rows"])
+    import functools
+    with tmpdir(prefix="verif-c01-") as root:        # removed even when a worker dies
+        res = D.crashproof_map(_work, cases, init=functools.partial(_init_worker, root), workers=workers,
+                               weight=lambda c: c["rows"])
     for c, (kind, r) in zip(cases, res):
         if kind == "ok":
             yield c, r
